@@ -36,6 +36,7 @@ def main():
     ap.add_argument('--tier', default='quick')
     ap.add_argument('--needs', default='')
     ap.add_argument('--keep-anyway', action='store_true')
+    ap.add_argument('--recheck', action='store_true', help='seed already confirmed: only apply the patch and run the checks; meta.json gets a recheck entry')
     a = ap.parse_args()
     patch = os.path.abspath(os.path.join(a.src, 'patch.diff'))
     demo = os.path.abspath(os.path.join(a.src, 'demo.py'))
@@ -48,6 +49,29 @@ def main():
         print(out)
         return 2
     ok = True
+    if a.recheck:
+        rc, out = sh('git apply %s' % patch, cwd=scratch)
+        res = {}
+        if rc:
+            res = {'error': 'patch does not apply on the current HEAD of /repo: %s' % out.strip()[:200]}
+        else:
+            for c in checks:
+                t0 = time.time()
+                rc, out = sh('EMD_REPO=%s %s/bin/check %s --tier %s' % (scratch, ROOT, c, a.tier), cwd=ROOT, timeout=7200)
+                lines = [l for l in out.splitlines() if l.startswith(('VIOLATION', 'HARNESS-ERROR', 'OK', '  %s:' % c))]
+                res[c] = {'exit': rc, 'wall_s': round(time.time() - t0, 1), 'summary': [l[:240] for l in lines[:2]]}
+        sh('git -C /repo worktree remove --force %s' % scratch)
+        shutil.rmtree(scratch, ignore_errors=True)
+        mp = os.path.join(ROOT, 'seeded', a.seed_id, 'meta.json')
+        m = json.load(open(mp))
+        m['recheck'] = {'at': time.strftime('%Y-%m-%d %H:%M:%S'), 'verif_commit': sh('git -C %s rev-parse --short HEAD' % ROOT)[1].strip(),
+                        'repo_commit': sh('git -C /repo rev-parse --short HEAD')[1].strip(), 'checks': res}
+        with open(mp, 'w') as f:
+            json.dump(m, f, indent=1)
+        caught = [c for c, d in res.items() if isinstance(d, dict) and d.get('exit') == 1]
+        print('RECHECK %s caught_by=%s %s' % (a.seed_id, caught, '' if caught else json.dumps(res)[:300]))
+        sh('git -C %s checkout -- evidence' % ROOT)
+        return 0 if caught else 1
     try:
         os.makedirs(os.path.join(scratch, '_mut', 'S'), exist_ok=True)
         import re
